@@ -81,7 +81,8 @@ def forced(kinds):
 
 
 def check(ctx, stream, native, conv, vclass, matcher, bounds, nontrivial, extra=None, region=None):
-    """convert, validate, compare membership on probes"""
+    """convert, validate, compare membership on probes.  `region` names a recorded finding about WELL-FORMEDNESS of the
+    result (K11, K12); a membership difference is never inside a recorded region"""
     ctx.count(stream, key=native, nontrivial=nontrivial)
     try:
         r = conv(native)
@@ -96,8 +97,6 @@ def check(ctx, stream, native, conv, vclass, matcher, bounds, nontrivial, extra=
                      {"native": native, "vers": str(r), "clause": "result is not accepted by validation"}, spec="well-formed", region=region)
         if region != "maven-shared-bound":
             return
-        # the recorded finding K12 is about well-formedness only: membership is still compared, and reported
-        region = None
     for p in probes_around(bounds):
         t = rel(*p)
         try:
@@ -117,7 +116,7 @@ def check(ctx, stream, native, conv, vclass, matcher, bounds, nontrivial, extra=
                  "clause": "membership of %s differs" % t}
             if extra:
                 d.update(extra)
-            ctx.disagree(stream, "%s @%s" % (native, t), str(got), str(want), True, d, spec=str(want), region=region)
+            ctx.disagree(stream, "%s @%s" % (native, t), str(got), str(want), True, d, spec=str(want))
             return
         # the same release written another way (2.0.0 / 2.0 / 2 / 2.0.0.0): where the scheme says it is the same
         # version, the answer is the same
@@ -140,7 +139,7 @@ def check(ctx, stream, native, conv, vclass, matcher, bounds, nontrivial, extra=
             if got2 != want:
                 d = {"native": native, "vers": str(r), "probe": t2, "same_version_as": t, "native_matcher_says": want,
                      "vers_says": got2, "clause": "membership of %s (the same version as %s) differs" % (t2, t)}
-                ctx.disagree(stream, "%s @%s" % (native, t2), str(got2), str(want), True, d, spec=str(want), region=region)
+                ctx.disagree(stream, "%s @%s" % (native, t2), str(got2), str(want), True, d, spec=str(want))
                 return
 
 
